@@ -22,7 +22,7 @@ ASSUMPTIONS = [
 ]
 OUTSIDE = ["NaN scores", "more plates than the bound"]
 RULE = "observed pattern, batch, n_chunks and chunk-file order are solver-enumerated; scores stay symbolic so that every allowed plate can be the minimum."
-BUDGET_S = {"quick": 280, "thorough": 1700}
+BUDGET_S = {"quick": 600, "thorough": 3000}
 TASK_QUOTA = 60
 
 # (sample, t1, d1, t2, d2, plate)
